@@ -48,7 +48,7 @@ def parse_by_type(kind, values, default=None):
 
 
 class CfgImpl(object):
-    def __init__(self, world, table, defaults=None, with_defaults_key=True, spelling=None, underscore_socks=None, mid=None):
+    def __init__(self, world, table, defaults=None, with_defaults_key=True, spelling=None, underscore_socks=None, mid=None, setup=None):
         """
         table: ordered list of (name, initial values list)
         defaults: dict name -> list of default values (served through config/defaults)
@@ -75,6 +75,8 @@ class CfgImpl(object):
                 for v in vals:
                     dl.append('%s %s' % (name, v))
             sim.info['config/defaults'] = dl
+        if setup is not None:
+            setup(sim)                   # further state the Tor is in before the client reads its configuration
         self.cfg = TorConfig(self.proto)
         self.boot = []
         self.cfg.post_bootstrap.addCallbacks(lambda c: self.boot.append('ok'), lambda f: self.boot.append(f))
